@@ -43,7 +43,7 @@ def make_flow_scenarios(ctx, count):
             r = rng.random()
             if r < 0.30:
                 ms = rng.choice([0, 1, 99, 100, 999, 1000, 1001, 4000, 4999, 5000, 5001, 6000, 28999, 29000, 29999,
-                                 30000, 30001, 30999, 31000, 31001, 60000, 61000, 120000]) if rng.random() < 0.8 \
+                                 30000, 30001, 30999, 31000, 31001, 60000, 61000, 120000, 4294968000, (1 << 32) + 30000, 1 << 41]) if rng.random() < 0.8 \
                     else rng.randint(0, 120000)
                 s.add("ADV %d" % ms)
                 ops.append(("ADV", ms))
